@@ -15,7 +15,8 @@ RULE = ("ddiff A -f FMT with 40-120 values B on stdin per generated format. Form
         "padding modifiers and literals. Oracle: the printed numbers, applied largest unit first to "
         "min(A,B) with the reference calendar, land on max(A,B); leading '-' iff B<A; ddiff(B,A) is "
         "ddiff(A,B) with the sign toggled. Non-trivial: a borrow happens (later day-of-month or "
-        "time-of-day smaller than the earlier one's) or a leap day lies in between")
+        "time-of-day smaller than the earlier one's) or a leap day lies in between"
+        " Also: for fixed-unit formats three pairs per case make the trip through the tools (ddiff's output given to dadd with the earlier value, ISO spelling and seconds since the epoch), two pairs go through ddiff's argument route.")
 ASSUMPTIONS = ["reference adder = vf/refcal.py month arithmetic + second counting; its agreement with dadd is C03/C04/C07/C11",
                "sign of an all-zero duration is not asserted"]
 
